@@ -18,7 +18,7 @@ func init() {
 		Prop:  "C13",
 		Title: "Caches and pools are semantically invisible",
 		Explanation: "A cache changes a result only if a hit returns what a miss would not compute, i.e. if the key determines less than the computation reads. " +
-			"R13a result-cache key completeness: the key of the per-record result cache is built from Node.ID and the declaration hash (both found by data flow from the map lookup in ParseNode); (i) the hash covers every exported field of Decl/CustomFuncDecl (deepCopy stores each one, each has a json tag that encodes it; the hashing function encodes json.Marshal(deepCopy(its own parameter)), directly or through helpers of its package followed by return value and parameter binding, the copy is not written on the way, and every interning key is that encoding through injective steps); (ii) every read of an unexported Decl/CustomFuncDecl field on the evaluation path is classified: the hash itself, content-determined fields (kind: its writer reads only exported fields; children: filled only from Object/Array/Args), path-name strings whose uses are result-neutral (error texts) or in the enumerated table (object member name, root test), and position links (parent) whose every value-affecting read is reported; (iii) no tree surgery (AddChild/RemoveAndReleaseTree) is reachable from ParseNode; (iv) the cache store is control-dependent on err == nil; (v) no exported field of a Decl is written after its hash was computed; (vi) lookup and store use the same key value. " +
+			"R13a result-cache key completeness: the key of the per-record result cache is built from Node.ID and the declaration hash (both found by data flow from the map lookup in ParseNode, through key-building helpers of the repository with parameter binding, and required on every path that builds the key: Phi edges, helper returns and assignments of the key variable are intersected); (i) the hash covers every exported field of Decl/CustomFuncDecl (deepCopy stores each one, each has a json tag that encodes it; the hashing function encodes json.Marshal(deepCopy(its own parameter)), directly or through helpers of its package followed by return value and parameter binding, the copy is not written on the way, and every interning key is that encoding through injective steps); (ii) every read of an unexported Decl/CustomFuncDecl field on the evaluation path is classified: the hash itself, content-determined fields (kind: its writer reads only exported fields; children: filled only from Object/Array/Args), path-name strings whose uses are result-neutral (error texts) or in the enumerated table (object member name, root test), and position links (parent) whose every value-affecting read is reported; (iii) no tree surgery (AddChild/RemoveAndReleaseTree) is reachable from ParseNode; (iv) the cache store is control-dependent on err == nil; (v) no exported field of a Decl is written after its hash was computed; (vi) lookup and store use the same key value. " +
 			"R13b loader purity for every caches.LoadingCache.Get in the repository and in go-corelib/caches: the loader's free variables are the key itself or immutable. " +
 			"R13d pools: node pool — reset exhaustive and blank, ID from the atomic counter, reset dominates Put, no use after release (= C12 R12b–d); VM pool — set/delete symmetry, cleanup deferred and ordered before Put (= C20 R20a). " +
 			"R13e the cache switches (package-level flags read on the run path, the context's disable flag) have no writer outside package initialisers / the constructor. " +
@@ -133,30 +133,80 @@ func c13Resolve(c *core.Ctx, rule string) *c13roles {
 }
 
 // keySources: the struct fields whose loads flow into v (through string concatenation, conversions, pure format
-// calls, local variable cells incl. captured ones).
+// calls, local variable cells incl. captured ones, and repository helpers: the results of a statically resolved callee
+// with a body are followed into the callee, its parameters are bound back to the arguments of that very call).
 func keySources(v ssa.Value, fn *ssa.Function, seen map[ssa.Value]bool, out map[*types.Var]bool) {
-	if v == nil || seen[v] {
+	w := &keyWalk{seen: map[keyAt]bool{}, ctxs: map[keyAt]*keyCtx{}, out: out}
+	w.walk(v, nil)
+}
+
+// keyCtx is the chain of calls through which the walk descended into the current function.
+type keyCtx struct {
+	call  *ssa.Call
+	up    *keyCtx
+	depth int
+}
+
+type keyAt struct {
+	v   ssa.Value
+	ctx *keyCtx
+}
+
+type keyWalk struct {
+	seen map[keyAt]bool
+	ctxs map[keyAt]*keyCtx
+	out  map[*types.Var]bool
+}
+
+func (w *keyWalk) enter(call *ssa.Call, up *keyCtx) *keyCtx {
+	k := keyAt{call, up}
+	if c := w.ctxs[k]; c != nil {
+		return c
+	}
+	d := 1
+	if up != nil {
+		d = up.depth + 1
+	}
+	c := &keyCtx{call: call, up: up, depth: d}
+	w.ctxs[k] = c
+	return c
+}
+
+func (w *keyWalk) walk(v ssa.Value, ctx *keyCtx) {
+	if v == nil || w.seen[keyAt{v, ctx}] {
 		return
 	}
-	seen[v] = true
+	w.seen[keyAt{v, ctx}] = true
 	switch x := v.(type) {
 	case *ssa.BinOp:
-		keySources(x.X, fn, seen, out)
-		keySources(x.Y, fn, seen, out)
+		w.walk(x.X, ctx)
+		w.walk(x.Y, ctx)
 	case *ssa.Phi:
 		for _, e := range x.Edges {
-			keySources(e, fn, seen, out)
+			w.walk(e, ctx)
+		}
+	case *ssa.Extract:
+		if call, ok := x.Tuple.(*ssa.Call); ok {
+			w.call(call, x.Index, ctx)
 		}
 	case *ssa.Call:
-		for _, a := range x.Call.Args {
-			keySources(a, fn, seen, out)
+		w.call(x, 0, ctx)
+	case *ssa.Parameter:
+		// bound to the argument of the call the walk came through
+		if ctx == nil || ctx.call.Call.StaticCallee() != x.Parent() {
+			return
+		}
+		for i, p := range x.Parent().Params {
+			if p == x && i < len(ctx.call.Call.Args) {
+				w.walk(ctx.call.Call.Args[i], ctx.up)
+			}
 		}
 	case *ssa.Convert:
-		keySources(x.X, fn, seen, out)
+		w.walk(x.X, ctx)
 	case *ssa.ChangeType:
-		keySources(x.X, fn, seen, out)
+		w.walk(x.X, ctx)
 	case *ssa.MakeInterface:
-		keySources(x.X, fn, seen, out)
+		w.walk(x.X, ctx)
 	case *ssa.Slice:
 		// variadic argument array: the values stored into its elements
 		if a, ok := x.X.(*ssa.Alloc); ok {
@@ -164,36 +214,226 @@ func keySources(v ssa.Value, fn *ssa.Function, seen map[ssa.Value]bool, out map[
 				if ia, ok := r.(*ssa.IndexAddr); ok {
 					for _, r2 := range core.Referrers(ia) {
 						if st, ok := r2.(*ssa.Store); ok && st.Addr == ssa.Value(ia) {
-							keySources(st.Val, fn, seen, out)
+							w.walk(st.Val, ctx)
 						}
 					}
 				}
 			}
 		} else {
-			keySources(x.X, fn, seen, out)
+			w.walk(x.X, ctx)
 		}
 	case *ssa.UnOp:
 		if x.Op != token.MUL {
-			keySources(x.X, fn, seen, out)
+			w.walk(x.X, ctx)
 			return
 		}
 		switch a := x.X.(type) {
 		case *ssa.FieldAddr:
-			out[core.FieldOfAddr(a)] = true
+			w.out[core.FieldOfAddr(a)] = true
 		case *ssa.Alloc:
 			for _, st := range storesToCell(a) {
-				keySources(st.Val, st.Parent(), seen, out)
+				w.walk(st.Val, ctx)
 			}
 		case *ssa.FreeVar:
 			if b := closureBinding(x.Parent(), a); b != nil {
 				if al, ok := b.(*ssa.Alloc); ok {
 					for _, st := range storesToCell(al) {
-						keySources(st.Val, st.Parent(), seen, out)
+						w.walk(st.Val, ctx)
 					}
 				}
 			}
 		}
 	}
+}
+
+// call: result #idx of a call. A repository function with a body is entered (its returned values, parameters bound to
+// this call's arguments); anything else (library formatters, dynamic calls) is treated as a pure function of its arguments.
+func (w *keyWalk) call(x *ssa.Call, idx int, ctx *keyCtx) {
+	callee := x.Call.StaticCallee()
+	if callee != nil && callee.Blocks != nil && core.InRepo(core.FuncPkg(callee)) && (ctx == nil || ctx.depth < 4) {
+		in := w.enter(x, ctx)
+		for _, b := range callee.Blocks {
+			if ret, ok := b.Instrs[len(b.Instrs)-1].(*ssa.Return); ok && idx < len(ret.Results) {
+				w.walk(ret.Results[idx], in)
+			}
+		}
+		return
+	}
+	for _, a := range x.Call.Args {
+		w.walk(a, ctx)
+	}
+}
+
+// keyMustSources: the struct fields whose loads flow into v on EVERY path (the key "includes" them whatever branch built
+// it): concatenation and pure formatters take the union of their operands, a Phi, the returns of a followed helper and
+// the assignments of a variable cell take the intersection. A key that carries Node.ID on one path only (a wildcard
+// on the other) is therefore not node-dependent.
+func keyMustSources(v ssa.Value) map[*types.Var]bool {
+	w := &keyWalk{seen: map[keyAt]bool{}, ctxs: map[keyAt]*keyCtx{}}
+	set, _ := w.must(v, nil)
+	if set == nil {
+		set = map[*types.Var]bool{}
+	}
+	return set
+}
+
+func keyUnion(a, b map[*types.Var]bool) map[*types.Var]bool {
+	out := map[*types.Var]bool{}
+	for f := range a {
+		out[f] = true
+	}
+	for f := range b {
+		out[f] = true
+	}
+	return out
+}
+
+// keyMeet intersects the sets of the alternatives; alternatives on a cycle under evaluation (top) are neutral.
+type keyMeet struct {
+	set map[*types.Var]bool
+	any bool
+}
+
+func (m *keyMeet) add(s map[*types.Var]bool, top bool) {
+	if top {
+		return
+	}
+	if !m.any {
+		m.any, m.set = true, keyUnion(s, nil)
+		return
+	}
+	for f := range m.set {
+		if !s[f] {
+			delete(m.set, f)
+		}
+	}
+}
+
+func (m *keyMeet) result() (map[*types.Var]bool, bool) {
+	if !m.any {
+		return nil, true
+	}
+	return m.set, false
+}
+
+// must returns the fields included on every path; top == true means "no information yet" (a value on a cycle that is
+// being evaluated), which is neutral for intersections and ignored by unions.
+func (w *keyWalk) must(v ssa.Value, ctx *keyCtx) (map[*types.Var]bool, bool) {
+	if v == nil {
+		return nil, false
+	}
+	k := keyAt{v, ctx}
+	if w.seen[k] {
+		return nil, true
+	}
+	w.seen[k] = true
+	defer delete(w.seen, k)
+	pass := func(x ssa.Value) (map[*types.Var]bool, bool) { return w.must(x, ctx) }
+	cell := func(a *ssa.Alloc) (map[*types.Var]bool, bool) {
+		var m keyMeet
+		sts := storesToCell(a)
+		if len(sts) == 0 {
+			return nil, false
+		}
+		for _, st := range sts {
+			m.add(w.must(st.Val, ctx))
+		}
+		return m.result()
+	}
+	switch x := v.(type) {
+	case *ssa.BinOp:
+		if x.Op != token.ADD {
+			return nil, false
+		}
+		a, ta := w.must(x.X, ctx)
+		b, tb := w.must(x.Y, ctx)
+		if ta && tb {
+			return nil, true
+		}
+		return keyUnion(a, b), false
+	case *ssa.Phi:
+		var m keyMeet
+		for _, e := range x.Edges {
+			m.add(w.must(e, ctx))
+		}
+		return m.result()
+	case *ssa.Extract:
+		if call, ok := x.Tuple.(*ssa.Call); ok {
+			return w.mustCall(call, x.Index, ctx)
+		}
+	case *ssa.Call:
+		return w.mustCall(x, 0, ctx)
+	case *ssa.Parameter:
+		if ctx == nil || ctx.call.Call.StaticCallee() != x.Parent() {
+			return nil, false
+		}
+		for i, p := range x.Parent().Params {
+			if p == x && i < len(ctx.call.Call.Args) {
+				return w.must(ctx.call.Call.Args[i], ctx.up)
+			}
+		}
+	case *ssa.Convert:
+		return pass(x.X)
+	case *ssa.ChangeType:
+		return pass(x.X)
+	case *ssa.MakeInterface:
+		return pass(x.X)
+	case *ssa.Slice:
+		a, ok := x.X.(*ssa.Alloc)
+		if !ok {
+			return pass(x.X)
+		}
+		out := map[*types.Var]bool{}
+		for _, r := range core.Referrers(a) {
+			if ia, ok := r.(*ssa.IndexAddr); ok {
+				for _, r2 := range core.Referrers(ia) {
+					if st, ok := r2.(*ssa.Store); ok && st.Addr == ssa.Value(ia) {
+						s, _ := w.must(st.Val, ctx)
+						out = keyUnion(out, s)
+					}
+				}
+			}
+		}
+		return out, false
+	case *ssa.UnOp:
+		if x.Op != token.MUL {
+			return nil, false
+		}
+		switch a := x.X.(type) {
+		case *ssa.FieldAddr:
+			return map[*types.Var]bool{core.FieldOfAddr(a): true}, false
+		case *ssa.Alloc:
+			return cell(a)
+		case *ssa.FreeVar:
+			if al, ok := closureBinding(x.Parent(), a).(*ssa.Alloc); ok {
+				return cell(al)
+			}
+		}
+	}
+	return nil, false
+}
+
+func (w *keyWalk) mustCall(x *ssa.Call, idx int, ctx *keyCtx) (map[*types.Var]bool, bool) {
+	callee := x.Call.StaticCallee()
+	if callee != nil && callee.Blocks != nil && core.InRepo(core.FuncPkg(callee)) && (ctx == nil || ctx.depth < 4) {
+		in := w.enter(x, ctx)
+		var m keyMeet
+		for _, b := range callee.Blocks {
+			if ret, ok := b.Instrs[len(b.Instrs)-1].(*ssa.Return); ok && idx < len(ret.Results) {
+				m.add(w.must(ret.Results[idx], in))
+			}
+		}
+		return m.result()
+	}
+	if callee != nil && callee.Blocks != nil && core.InRepo(core.FuncPkg(callee)) {
+		return nil, false // too deep: nothing shown
+	}
+	out := map[*types.Var]bool{}
+	for _, a := range x.Call.Args {
+		s, _ := w.must(a, ctx)
+		out = keyUnion(out, s)
+	}
+	return out, false
 }
 
 // storesToCell: stores into an Alloc cell from its function and the closures that capture it.
@@ -303,15 +543,18 @@ func c13KeyCompleteness(c *core.Ctx, r *c13roles, rule string) {
 	// (vi) key sources and key identity
 	srcs := map[*types.Var]bool{}
 	keySources(r.lookup.Index, r.parseNode, map[ssa.Value]bool{}, srcs)
+	// the fields are resolved from what may flow into the key; the key "includes" a field only if it does so on every
+	// path that builds it (a key that drops the node ID for some declarations is not node-dependent)
+	must := keyMustSources(r.lookup.Index)
 	var idOK, hashOK bool
 	for f := range srcs {
 		if f.Name() == "ID" && f.Pkg() != nil && strings.HasSuffix(f.Pkg().Path(), "/idr") {
-			idOK = true
+			idOK = idOK || must[f]
 			r.idField = f
 		}
 		if !f.Exported() && f.Pkg() == r.tp {
 			if b, ok := f.Type().Underlying().(*types.Basic); ok && b.Kind() == types.String {
-				hashOK = true
+				hashOK = hashOK || must[f]
 				r.hashField = f
 			}
 		}
